@@ -317,6 +317,12 @@ def _rewrite_block(body: list[ast.stmt], tables, cls: str | None, fn: ast.AST, c
             h = st.targets[0].id
             lk = _as_lookup(st.value, tables, cls)
             nxt = body[i + 1]
+            if lk is not None and isinstance(nxt, (ast.Assign, ast.Return)) and isinstance(nxt.value, ast.IfExp) and _none_test(nxt.value.test, h) is not None:
+                # `x = A if h is None else h(a)`: the statement form of the same choice
+                def with_value(v: ast.AST, nxt=nxt) -> ast.stmt:
+                    c_ = ast.Assign(targets=[clone(t_) for t_ in nxt.targets], value=clone(v)) if isinstance(nxt, ast.Assign) else ast.Return(value=clone(v))
+                    return ast.fix_missing_locations(ast.copy_location(c_, nxt))
+                nxt = ast.fix_missing_locations(ast.copy_location(ast.If(test=clone(nxt.value.test), body=[with_value(nxt.value.body)], orelse=[with_value(nxt.value.orelse)]), nxt))
             if lk is not None and sum(1 for n in ast.walk(fn) if isinstance(n, ast.Name) and n.id == h and isinstance(n.ctx, ast.Store)) == 1:
                 rest_uses = any(_loads(s, h) for s in body[i + 2:])
                 key_names = {n.id for n in ast.walk(lk.key) if isinstance(n, ast.Name)}
@@ -423,6 +429,44 @@ class _HigherOrder(ast.NodeTransformer):
         return ast.fix_missing_locations(ast.copy_location(g, n))
 
 
+def _local_tables(fn: ast.AST, new_names: set[str]) -> list[Table]:
+    """dict displays of lambdas / new helpers bound once to a local of fn and never written again"""
+    out: list[Table] = []
+    for st in ast.walk(fn):
+        if isinstance(st, (ast.Lambda,)) :
+            continue
+        tgt, val = None, None
+        if isinstance(st, ast.Assign) and len(st.targets) == 1 and isinstance(st.targets[0], ast.Name):
+            tgt, val = st.targets[0].id, st.value
+        elif isinstance(st, ast.AnnAssign) and isinstance(st.target, ast.Name) and st.value is not None:
+            tgt, val = st.target.id, st.value
+        if tgt is None or not isinstance(val, ast.Dict) or not val.keys or len(val.keys) > _MAX_KEYS:
+            continue
+        if any(k is None or not isinstance(k, (ast.Attribute, ast.Constant, ast.Name)) for k in val.keys):
+            continue
+        if not all(isinstance(v, ast.Lambda) or _value_name(v) for v in val.values) or not any(isinstance(v, ast.Lambda) or _value_name(v) in new_names for v in val.values):
+            continue
+        stores = [n for n in ast.walk(fn) if isinstance(n, ast.Name) and n.id == tgt and isinstance(n.ctx, (ast.Store, ast.Del))]
+        mutated = any((isinstance(n, ast.Subscript) and isinstance(n.ctx, (ast.Store, ast.Del)) and isinstance(n.value, ast.Name) and n.value.id == tgt) or (isinstance(n, ast.Call) and isinstance(n.func, ast.Attribute) and isinstance(n.func.value, ast.Name) and n.func.value.id == tgt and n.func.attr in ("update", "pop", "popitem", "clear", "setdefault")) for n in ast.walk(fn))
+        if len(stores) != 1 or mutated:
+            continue
+        t = Table(tgt, None, val)
+        t.stmt = st  # type: ignore[attr-defined]
+        out.append(t)
+    return out
+
+
+def _drop_stmt(fn: ast.AST, st: ast.stmt) -> None:
+    for owner in ast.walk(fn):
+        for f in ("body", "orelse", "finalbody"):
+            v = getattr(owner, f, None)
+            if isinstance(v, list) and st in v:
+                v.remove(st)
+                if not v and f == "body":
+                    v.append(ast.copy_location(ast.Pass(), st))
+                return
+
+
 def desugar_dispatch(tree: ast.Module, new_names: set[str]) -> int:
     """rewrite, in place, every call through a new constant helper table; returns the number of rewritten sites"""
     ho = _HigherOrder(new_names)
@@ -431,8 +475,6 @@ def desugar_dispatch(tree: ast.Module, new_names: set[str]) -> int:
         for child in ast.iter_child_nodes(parent):
             child._parent = parent  # type: ignore[attr-defined]
     tables = _collect_tables(tree, new_names)
-    if not tables:
-        return ho.count
     counter = [ho.count]
 
     def visit(body: list[ast.stmt], cls: str | None) -> None:
@@ -440,7 +482,16 @@ def desugar_dispatch(tree: ast.Module, new_names: set[str]) -> int:
             if isinstance(st, ast.ClassDef):
                 visit(st.body, st.name)
             elif isinstance(st, (ast.FunctionDef, ast.AsyncFunctionDef)):
-                st.body = _rewrite_block(st.body, tables, cls, st, counter)
+                local = _local_tables(st, new_names)
+                tb = dict(tables)
+                tb.update({(None, t.name): t for t in local if (None, t.name) not in tables})
+                before = counter[0]
+                st.body = _rewrite_block(st.body, tb, cls, st, counter)
+                if counter[0] > before:
+                    # a local table that is no longer read is dropped with its lambdas
+                    for t in local:
+                        if not any(isinstance(n, ast.Name) and n.id == t.name and isinstance(n.ctx, ast.Load) for n in ast.walk(st)):
+                            _drop_stmt(st, t.stmt)  # type: ignore[attr-defined]
 
     visit(tree.body, None)
     if counter[0]:
